@@ -108,7 +108,14 @@ def gen(r, tier):
             consumer["pause"] = r.choice([0.0, 0.5, 5.0, 150.0])
     # a second observation of the same client at the same server (another resource, another token) with a steady
     # stream of in-order notifications: what happens to one observation must not spill over to the other
+    # the application keeps nothing but `request.observation` once it has the first response (the request object, its
+    # message and the response become garbage -- cyclic garbage, freed when the collector runs, which the scenario
+    # schedules): the observation goes on all the same
+    forget = r.chance(0.2)
+    t_last = max([e["at"] for e in events] or [0])
     return {"first": first, "events": events, "consumer": consumer, "blockwise": r.chance(0.25),
+            "forget_request": forget,
+            "gc_at": sorted(round(r.uniform(0.0, t_last + 1.0), 3) for _ in range(r.choice([1, 3, 8]))) if forget else [],
             "companion": r.chance(0.25),
             # both roles: shortly before a transport error the server asks the observing context for something (slow
             # handler) under the very token of the observation (tokens are per direction)
@@ -394,9 +401,14 @@ def execute(sim, scn):
             else:
                 state["first"] = ("response", f.result())
             sim.log("app", "first", state["first"][0])
+            if scn.get("forget_request"):
+                sim.probe("application_keeps_only_the_observation")
+                state["req"] = None
 
         req.response.add_done_callback(on_first)
         obs = req.observation
+        state["obs"] = obs  # (an application that keeps neither the request nor the observation has lost interest)
+        del req
 
         def cb(m):
             cb_log.append((loop.now, bytes(m.payload), m.opt.observe, len(sim.events)))
@@ -516,6 +528,13 @@ def execute(sim, scn):
     loop.at(0.0, start)
     if scn.get("companion"):
         loop.at(0.0, start_companion)
+
+    def collect():
+        import gc
+        sim.probe("garbage_collected_mid_run")
+        gc.collect()
+    for tg in scn.get("gc_at") or []:
+        loop.at(tg, collect)
     sim.run()
     if scn.get("companion") and getattr(server, "companion", None) is not None:
         # the companion's stream is in order and loss-free: every notification is handed over, once, in order -- up to
